@@ -224,7 +224,21 @@ func frameJ(f wsFrame, fwd []mocrelay.ClientMsg, replies []mocrelay.ServerMsg, s
 func genWSFrames(r *Rng, n int) []wsFrame {
 	var frames []wsFrame
 	for i := 0; i < n; i++ {
-		switch r.Intn(12) {
+		switch r.Intn(13) {
+		case 12:
+			// a well-formed message padded with characters that are white space for Unicode but not for JSON
+			// (and, as a control, with JSON's own four): only the latter is a valid frame
+			b, _ := json.Marshal(wfClientMsg(r))
+			pad := pick(r, []string{"\v", "\f", "\u0085", "\u00a0", "\u2028", "\u2029", "\u3000", "\u2000", "\ufeff", "\u200b", "\x00", "\x1f", " ", "\t", "\n", "\r"})
+			switch r.Intn(3) {
+			case 0:
+				b = append([]byte(pad), b...)
+			case 1:
+				b = append(b, pad...)
+			default:
+				b = append(append([]byte(pad), b...), pad...)
+			}
+			frames = append(frames, wsFrame{Payload: b})
 		case 0, 1, 2:
 			// correctly signed EVENT, possibly followed by altered copies that keep id and sig
 			e, _ := genC01Event(r)
